@@ -235,6 +235,78 @@ pub fn run_case(c: &Sexp) -> Sexp {
         "cfile" => crate::container::cfile(a),
         // (cread #file) -> (obs (ok SCHEMA (meta (kv #k #v)...) | (open-err)) (items (ok V)|(err) ...))
         "cread" => crate::container::cread(a),
+        // (decode2 #schema-json #bytes) ->
+        //   (obs SCHEMA DEC VALID REENC REDEC DESER) : generic decode, Value::validate of the result,
+        //   re-encode, decode of the re-encoding, and the schema-aware deserializer on the same bytes
+        "decode2" => {
+            if a.len() != 2 {
+                return bad("arity");
+            }
+            let schema = match parse_schema(&a[0]) {
+                Ok(s) => s,
+                Err(e) => return e,
+            };
+            let input = a[1].as_hex().unwrap_or(&[]).to_vec();
+            let mut decoded: Option<apache_avro::types::Value> = None;
+            let dec = guarded(|| {
+                let r = match GenericDatumReader::builder(&schema).build() {
+                    Ok(r) => r,
+                    Err(_) => return Sexp::tag("reader-err", vec![]),
+                };
+                let mut slice = &input[..];
+                match r.read_value(&mut slice) {
+                    Ok(v) => {
+                        let o = ok(vec![value_to_sexp(&v), Sexp::hex(slice)]);
+                        decoded = Some(v);
+                        o
+                    }
+                    Err(_) => err(),
+                }
+            });
+            let (valid, reenc, redec) = match &decoded {
+                None => (Sexp::tag("skipped", vec![]), Sexp::tag("skipped", vec![]), Sexp::tag("skipped", vec![])),
+                Some(v) => {
+                    let valid = guarded(|| Sexp::num(v.validate(&schema) as i64));
+                    let mut bytes: Vec<u8> = Vec::new();
+                    let reenc = guarded(|| {
+                        let w = match GenericDatumWriter::builder(&schema).validate(false).build() {
+                            Ok(w) => w,
+                            Err(_) => return Sexp::tag("writer-err", vec![]),
+                        };
+                        match w.write_value_ref(&mut bytes, v) {
+                            Ok(_) => ok(vec![]),
+                            Err(_) => err(),
+                        }
+                    });
+                    let reenc_ok = matches!(reenc.tagged(), Some(("ok", _)));
+                    let redec = if reenc_ok {
+                        guarded(|| {
+                            let r = GenericDatumReader::builder(&schema).build().unwrap();
+                            let mut slice = &bytes[..];
+                            match r.read_value(&mut slice) {
+                                Ok(v2) => ok(vec![value_to_sexp(&v2), Sexp::hex(slice)]),
+                                Err(_) => err(),
+                            }
+                        })
+                    } else {
+                        Sexp::tag("skipped", vec![])
+                    };
+                    (valid, if reenc_ok { ok(vec![Sexp::hex(&bytes)]) } else { reenc }, redec)
+                }
+            };
+            let deser = guarded(|| {
+                let r = match GenericDatumReader::builder(&schema).build() {
+                    Ok(r) => r,
+                    Err(_) => return Sexp::tag("reader-err", vec![]),
+                };
+                let mut slice = &input[..];
+                match r.read_deser::<crate::universal::Universal>(&mut slice) {
+                    Ok(_) => ok(vec![Sexp::hex(slice)]),
+                    Err(_) => err(),
+                }
+            });
+            Sexp::tag("obs", vec![schema_to_sexp(&schema), dec, valid, reenc, redec, deser])
+        }
         "sizes" => Sexp::tag(
             "sizes",
             vec![
